@@ -23,6 +23,14 @@ def findZeroCert (eqs : List (List Dag × Dag)) (s : Box) : Bool :=
       let x := Verdict.shrink s vars k
       Verdict.hasZeroBy eqs s x vars (Verdict.midPoint x)
 
+/-- the same with exact rational interval arithmetic -/
+def findZeroCertX (eqs : List (List Dag × Dag)) (s : Box) : Bool :=
+  let n := s.length
+  (subsetsOf n eqs.length).any fun vars =>
+    (List.range 2).any fun k =>
+      let x := Verdict.shrink s vars k
+      Verdict.hasZeroByX eqs s x vars (Verdict.midPoint x)
+
 def opsNewton (op : String) (ins outs : List String) : Option String :=
   match op, ins, outs with
   | "newtonctc", [dags, vars, box, zs], [out, _, variant] => do
@@ -64,6 +72,9 @@ def opsNewton (op : String) (ins outs : List String) : Option String :=
     | none =>
       if !square && Verdict.certifiedSplit eqs e u vars 3 then
         pure "ok exactly-one-zero-certified with-parameters parameter-ranges-subdivided" else
+      match Verdict.findCertX eqs e u vars 3 with
+      | some k => pure s!"ok exactly-one-zero-certified {kind} exact-arithmetic shrink={k}"
+      | none =>
       let uniq := Box.subset e u && Newton.uniqueCertVars eqs u vars
       let exKnown := zs.any fun p => Verdict.ratZero eqs p && Verdict.ratIn p e
       pure s!"ok {kind} {if uniq then "uniqueness-certified" else "uniqueness-uncertified"} {if square && exKnown then "existence-by-known-zero" else "existence-uncertified"}"
@@ -76,6 +87,7 @@ def opsNewton (op : String) (ins outs : List String) : Option String :=
     if Verdict.noZero eqs 4 s then pure "FAIL feasibility-claimed-on-a-box-without-any-zero" else
     if zs.any (fun z => Verdict.ratZero eqs z && Verdict.ratIn z s) then pure "ok feasible-known-zero-inside" else
     if findZeroCert eqs s then pure "ok feasible-certified"
+    else if findZeroCertX eqs s then pure "ok feasible-certified exact-arithmetic"
     else pure "ok feasible-uncertified"
   | _, _, _ => none
 
